@@ -54,13 +54,50 @@ def spelled_docs(rng):
     return out
 
 
+def regenerated_code_is_current(v, rng):
+    """The code that ends up on disk after a dependency of the source changed (the class of a component it instantiates) must be
+    the code of the CURRENT inputs: the eval functions are typed from that class.  Compared with a generation into an empty tree."""
+    import subprocess
+    wd = common.workdir("c01regen")
+    env = dict(os.environ, NO_COLOR="1")
+    n = 0
+    for k, (c1, c2) in enumerate((("QSpinBox", "QDoubleSpinBox"), ("QDoubleSpinBox", "QSpinBox"), ("QSlider", "QDoubleSpinBox"))):
+        panel = ("import qmluic.QtWidgets\nQWidget {\n    Gauge { id: level }\n    Gauge { id: limit }\n"
+                 "    QCheckBox { checked: level.value > limit.value }\n    QLabel { text: \"%d\" }\n}\n" % k)
+        dirs = {}
+        for tag in ("history", "fresh"):
+            d = os.path.join(wd, "%s%d" % (tag, k))
+            os.makedirs(d)
+            open(os.path.join(d, "Panel.qml"), "w").write(panel)
+            dirs[tag] = d
+        cmd = [common.CLI, "generate-ui", "--foreign-types", common.METATYPES, "Panel.qml"]
+        open(os.path.join(dirs["history"], "Gauge.qml"), "w").write("import qmluic.QtWidgets\n%s {}\n" % c1)
+        p1 = subprocess.run(cmd, cwd=dirs["history"], capture_output=True, env=env, timeout=120)
+        open(os.path.join(dirs["history"], "Gauge.qml"), "w").write("import qmluic.QtWidgets\n%s {}\n" % c2)
+        p2 = subprocess.run(cmd, cwd=dirs["history"], capture_output=True, env=env, timeout=120)
+        open(os.path.join(dirs["fresh"], "Gauge.qml"), "w").write("import qmluic.QtWidgets\n%s {}\n" % c2)
+        p3 = subprocess.run(cmd, cwd=dirs["fresh"], capture_output=True, env=env, timeout=120)
+        if p1.returncode or p2.returncode or p3.returncode:
+            v.inconc("regeneration scenario refused: %s" % (p1.stderr + p2.stderr + p3.stderr).decode("utf-8", "replace")[-200:])
+            continue
+        h_hist = open(os.path.join(dirs["history"], "uisupport_panel.h")).read()
+        h_fresh = open(os.path.join(dirs["fresh"], "uisupport_panel.h")).read()
+        n += 1
+        if h_hist != h_fresh:
+            v.violation("stale-code-after-dependency-change", "Gauge.qml changed from %s to %s and Panel.qml was generated again: the support header "
+                        "on disk is not the code of the current inputs (value types of level.value differ)" % (c1, c2),
+                        {"qml": panel, "header_on_disk": h_hist, "header_of_current_inputs": h_fresh})
+    return n
+
+
 def run(tier, seed, replay=None):
     v = common.Verdict("C01", tier, seed)
     rng = common.rng_for(seed, "C01", tier)
     n_docs = 48 if tier == "quick" else 1200
     n_states = 24
     cxxmodel.ensure_model()
-    docs = [exprdoc.ExprDoc(rng, n_targets=3, max_depth=rng.choice((2, 3, 4)), hostile_strings=(i % 5 == 4)) for i in range(n_docs)]
+    docs = [exprdoc.ExprDoc(rng, n_targets=3, max_depth=rng.choice((2, 3, 4)), hostile_strings=(i % 5 == 4), gadget_members=(i % 3 == 1))
+            for i in range(n_docs)]
     docs += spelled_docs(rng)
     if replay:
         rp = json.load(open(replay))
@@ -202,15 +239,16 @@ def run(tier, seed, replay=None):
                      "null dereference/out-of-range subscript = undefined and never executed)",
                      "Qt API model generated from the same metatypes (cxx/qtmodel_rt.h + qv/cxxmodel.py) is the execution platform",
                      "excluded: enum/flag bit operations at run time, QString::arg beyond %1..%99, more than one side-effecting call per expression"]
+    n_regen = regenerated_code_is_current(v, rng) if not replay else 0
     return v.finish(
-        evaluations=n_pairs, distinct_nontrivial=len(distinct),
+        evaluations=n_pairs + n_regen, distinct_nontrivial=len(distinct),
         rule="type-directed random programs (expressions and statement blocks with let/const/shadowing, if/else, switch with default "
              "in any position, fall-through, break under if, early return, completion values) bound to properties of every result "
              "type, executed in 24 boundary-biased states each; distinct non-trivial = distinct program text with >= 2 different "
              "results over its states and a statement block or >= 4 nodes",
         samples=samples, documents=len(work), programs=sum(len(w[1].bindings) for w in work),
         pairs_defined=n_defined, pairs_undefined_skipped=n_undefined, programs_rejected_by_qmluic=len(rejected),
-        bindings_without_code_state_independent=n_constant_bindings,
+        bindings_without_code_state_independent=n_constant_bindings, regeneration_scenarios=n_regen,
         rejection_reasons=rej_msgs, sanitizer_or_abnormal_ends=san_reports, shape_features_hit=len(feats), shape_features=feats,
         floor=100 if tier == "quick" else 1000,
     )
